@@ -4,8 +4,10 @@ Copyright © 2023 NAME HERE <EMAIL ADDRESS>
 package cmd
 
 import (
+	"errors"
 	"fmt"
 	"os"
+	"syscall"
 
 	"github.com/JunNishimura/Goit/internal/file"
 	"github.com/JunNishimura/Goit/internal/object"
@@ -38,32 +40,36 @@ var statusCmd = &cobra.Command{
 			return fmt.Errorf("fail to get files: %w", err)
 		}
 		for _, filePath := range filePaths {
-			_, entry, isRegistered := client.Idx.GetEntry([]byte(filePath))
-
-			if !isRegistered { // new file
+			if _, _, isRegistered := client.Idx.GetEntry([]byte(filePath)); !isRegistered { // new file
 				newFiles = append(newFiles, filePath)
-			} else {
-				// check if the file is modified
-				data, err := os.ReadFile(filePath)
-				if err != nil {
-					return fmt.Errorf("fail to read %s: %w", filePath, err)
-				}
-				obj, err := object.NewObject(object.BlobObject, data)
-				if err != nil {
-					return fmt.Errorf("fail to get new object: %w", err)
-				}
-				if !entry.Hash.Compare(obj.Hash) {
-					modifiedFiles = append(modifiedFiles, filePath)
-				}
 			}
 		}
 
-		// walk through index
+		// walk through index: every tracked path is looked at itself, whether or not the walk above reached it
+		// (a tracked file may match an ignore entry that was written later)
 		var deletedFiles []string
 		for _, entry := range client.Idx.Entries {
 			filePath := string(entry.Path)
-			if _, err := os.Stat(filePath); os.IsNotExist(err) {
+			// missing, or something else than a file in its place (its directory is a file now, or it is a directory)
+			info, err := os.Stat(filePath)
+			if err != nil && !os.IsNotExist(err) && !errors.Is(err, syscall.ENOTDIR) {
+				return fmt.Errorf("fail to examine %s: %w", filePath, err)
+			}
+			if err != nil || info.IsDir() {
 				deletedFiles = append(deletedFiles, filePath)
+				continue
+			}
+			// check if the file is modified
+			data, err := os.ReadFile(filePath)
+			if err != nil {
+				return fmt.Errorf("fail to read %s: %w", filePath, err)
+			}
+			obj, err := object.NewObject(object.BlobObject, data)
+			if err != nil {
+				return fmt.Errorf("fail to get new object: %w", err)
+			}
+			if !entry.Hash.Compare(obj.Hash) {
+				modifiedFiles = append(modifiedFiles, filePath)
 			}
 		}
 
